@@ -162,6 +162,12 @@ let parse_oops (t : toks) : oop list =
         | "vcc" -> push (VCopyConstruct tg)
         | "vmc" -> push (VMoveConstruct tg)
         | "vss" -> push (VSelfSwap tg)
+        | "vvc" -> let j = next_nat t in let x = next_z t in push (VValueOrC (tg, j, x))
+        | "vvm" -> let j = next_nat t in let x = next_z t in push (VValueOrM (tg, j, x))
+        | "voc" -> push (VCopyConstruct tg)     (* optional::or_else const&: *this ? *this : f() *)
+        | "vom" -> push (VMoveConstruct tg)     (* optional::or_else &&:     *this ? move( *this) : f() *)
+        | "fxc" -> push (FCopyConstruct tg)     (* converting constructors from another capacity *)
+        | "fxm" -> push (FMoveConstruct tg)
         | "fas" -> let j = next_nat t in let x = next_z t in push (FAssign (tg, j, x))
         | "fan" -> push (FAssignNull tg)
         | "fca" -> push (FCopyAssign tg)
